@@ -7,9 +7,10 @@ from ..obs import observe_call, obs_term
 
 ID = "C04"
 HEADER = "From A816 Require Import Oracle.C04o.\nRequire Import Run.GenBuses."
-CASE_TYPE = "case"
-CHECK = "check Run.GenBuses.low_rom_bus Run.GenBuses.high_rom_bus"
-MODEL_VIEW = "model_view Run.GenBuses.low_rom_bus Run.GenBuses.high_rom_bus"
+CASE_TYPE = "anycase"
+CHECK = "check_any Run.GenBuses.low_rom_bus Run.GenBuses.high_rom_bus"
+MODEL_VIEW = ("fun c => match c with Plain c => model_view Run.GenBuses.low_rom_bus Run.GenBuses.high_rom_bus c "
+              "| Swept _ => (Err EOther, Err EOther) end")
 THEOREMS = ["C04_physical", "C04_mirror", "C04_ram", "C04_unmapped", "C04_advance", "C04_advance_ram",
             "C04_add_0", "C04_add_add", "C04_map_covers", "C04_lorom", "C04_hirom",
             "C04_live_lorom", "C04_live_hirom"]
@@ -21,7 +22,11 @@ PROVED_NOTE = ("proved for all Z: offset formula, mirror law, RAM/unmapped, adva
                "with 32K/64K windows; closed forms of both built-in buses; per-run: live buses agree with the "
                "specification buses on every bank (computed). Correspondence-only: that mapping.py computes what "
                "Model/Bus.v computes.")
-EXHAUSTIVE = {"quick": False, "thorough": False}
+EXHAUSTIVE = {"quick": False, "thorough": True}
+
+
+def weight(case):
+    return 40 if case["kind"] == "sweep" else 1
 MANIFEST = {
     "text": ("Bus laws (offset formula, mirrors, RAM/unmapped, advance, add_0, add_add) proved in Coq for all integers and "
              "for any bus built by Bus.map with 32K/64K windows; closed forms of both built-in buses proved; the live "
@@ -90,6 +95,14 @@ def cases(ctx):
                 incs = INCS if tier == "thorough" else rng.sample(INCS, 3)
                 for n in incs:
                     out.append({"kind": "add", "bus": bus, "a": a, "n": n})
+    # exhaustive sweeps: every address of every bank under both built-in buses (thorough), two banks (quick)
+    sweep_banks = range(0, 256) if tier == "thorough" else [0x01, 0x7E]
+    for bus in ("low", "high"):
+        for bank in sweep_banks:
+            for fn in ("phys", 1, 0x8000):
+                if tier == "quick" and fn == 0x8000:
+                    continue
+                out.append({"kind": "sweep", "bus": bus, "bank": bank, "fn": fn})
     nrand = 60 if tier == "quick" else 600
     for _ in range(nrand):
         steps = _rand_bus(rng)
@@ -119,8 +132,40 @@ def _bus(desc):
     return b
 
 
+P = 2147483629
+
+
+def _lorom_excluded(a):
+    bank = a >> 16
+    return (a & 0xFFFF) < 0x8000 and (0 <= bank <= 0x6F or 0x80 <= bank <= 0xCF)
+
+
+def _sweep(case):
+    from a816.cpu.mapping import Address
+    bus = _bus(case["bus"])
+    base = case["bank"] << 16
+    fn = case["fn"]
+    acc = acc_in = 0
+    for i in range(65536):
+        a = base + i
+        try:
+            if fn == "phys":
+                v = Address(bus, a).physical
+                code = 1 if v is None else v + 2
+            else:
+                code = (Address(bus, a) + fn).logical_value + 2
+        except Exception:
+            code = 0
+        acc = (acc * 31 + (i + 1) * code) % P
+        code_in = 0 if (case["bus"] == "low" and _lorom_excluded(a)) else code
+        acc_in = (acc_in * 31 + (i + 1) * code_in) % P
+    return {"ok": [acc, acc_in]}
+
+
 def observe(case):
     from a816.cpu.mapping import Address
+    if case["kind"] == "sweep":
+        return _sweep(case)
     if case["kind"] == "phys":
         return observe_call(lambda: Address(_bus(case["bus"]), case["a"]).physical)
     return observe_call(lambda: (Address(_bus(case["bus"]), case["a"]) + case["n"]).logical_value)
@@ -139,14 +184,20 @@ def _busdesc(desc) -> str:
 
 
 def coq_term(case, ob):
+    if case["kind"] == "sweep":
+        fn = "SwPhys" if case["fn"] == "phys" else f"(SwAdd {C.z(case['fn'])})"
+        impl = ob.get("ok") or [-1, -1]
+        return f"Swept (Sweep {C.cbool(case['bus'] == 'high')} {C.z(case['bank'])} {fn} {C.z(impl[0])} {C.z(impl[1])})"
     if case["kind"] == "phys":
-        return f"CPhys {_busdesc(case['bus'])} {C.z(case['a'])} {obs_term(ob, lambda v: C.copt(v, C.z))}"
-    return f"CAdd {_busdesc(case['bus'])} {C.z(case['a'])} {C.z(case['n'])} {obs_term(ob, C.z)}"
+        return f"Plain (CPhys {_busdesc(case['bus'])} {C.z(case['a'])} {obs_term(ob, lambda v: C.copt(v, C.z))})"
+    return f"Plain (CAdd {_busdesc(case['bus'])} {C.z(case['a'])} {C.z(case['n'])} {obs_term(ob, C.z)})"
 
 
 def nontrivial_key(case, ob):
     if "ok" not in ob:
         return None
+    if case["kind"] == "sweep":
+        return ["sweep", case["bus"], case["bank"], case["fn"]]
     return [case["kind"], case["bus"] if isinstance(case["bus"], str) else "user:" + C.short_hash(case["bus"]),
             case["a"], case.get("n")]
 
